@@ -215,6 +215,7 @@ class ArrAcc:
     def __init__(self, heap, arrv, sem=None):
         self._heap, self._v, self._sem = heap, arrv, sem
         self.shape = arrv.shape
+        self.tag = z3.Const("tag_" + str(arrv.aid), sem.idx_sort()) if sem is not None else None
 
     def __call__(self, *idx):
         if self._sem is not None:
@@ -1499,17 +1500,27 @@ def tir_mode(tir, registry):
     return c.mode if c is not None else INT
 
 
-_CNZ = {}
+def arr_tag(sem, arr):
+    """opaque identity of an array value (used by spec functions of whole arrays: count_nonzero,
+    interp tables, the HLL harmonic sum); views of the same heap cell share the tag"""
+    return z3.Const("tag_" + str(arr.aid), sem.idx_sort())
+
+
+def CNZ_fn(sem):
+    s_ = sem.idx_sort()
+    return z3.Function("COUNT_NONZERO_" + sem.mode, s_, s_)
+
+
+INTERP_FN = z3.Function("INTERP", z3.RealSort(), z3.IntSort(), z3.IntSort(), z3.RealSort())
 
 
 def COUNT_NONZERO(sem, arr, p):
-    """np.count_nonzero(a): an opaque integer tied to the array's base function (see C17 contract)"""
-    t = z3.Const(uid("count_nonzero"), sem.idx_sort())
-    p.env.setdefault("$count_nonzero", []).append((arr, t))
-    return t
+    """np.count_nonzero(a): named function of the array value (axioms are supplied by contracts)"""
+    return CNZ_fn(sem)(arr_tag(sem, arr))
 
 
 def INTERP(sem, x, xp, fp, p):
-    t = z3.Const(uid("interp"), z3.RealSort())
-    p.env.setdefault("$interp", []).append((x, xp, fp, t))
-    return t
+    """np.interp(x, xp, fp): named piecewise-linear interpolation of the two table values"""
+    if sem.mode != INT:
+        raise Unsupported("np.interp in bv mode")
+    return INTERP_FN(x, arr_tag(sem, xp), arr_tag(sem, fp))
